@@ -17,7 +17,7 @@ BOUNDS = {"project, second universe": "the empty state point {}, {a:0}, {a:false
           "damage": "truncation at EVERY offset 0..len; single-byte replacement at every offset by a representative of 9 byte classes (digit, letter, quote, closing brace, opening bracket, comma, colon, space, 0x80, newline); "
                     "deletion; replacement by another job's file; by other valid JSON ([], 1, {}, null); by an ==-equal but JSON-different state point (1 -> 1.0, 1 -> true); renaming the directory to an unused id",
           "victims": "any non-empty subset of the 3 jobs (same damage kind, offsets derived per file)", "cache": "persistent cache absent / exact"}
-OUTSIDE = ["multi-byte damage other than the listed replacements", "damage to documents / data files (not in the property)", "two job directories swapped with each other"]
+OUTSIDE = ["multi-byte damage other than the listed replacements", "damage to documents / data files (not in the property)", "two job directories swapped with each other (a chain of renames through an unused id is covered: kind 7)"]
 STUBS = ["MemFS (validated against tmpfs on every run; counterexamples replayed on the real file system)"]
 ASSUMPTIONS = ["a job is damaged iff its state point file is missing, unparsable, or parses to a value whose canonical hash differs from the directory name (independent classification in vflib.refs)"]
 
@@ -26,7 +26,7 @@ BYTES = [b"7", b"x", b'"', b"}", b"[", b",", b":", b" ", b"\x80", b"\n"]
 EQUAL_DIFFERENT = [b'{"a": 1.0}', b'{"a": {"b": [1, 2.5, "x"]}, "c": false}', b'{"\\u00e9": "\\u00fc", "k": [1]}']
 OTHER_JSON = [b"[]", b"1", b"{}", b"null", b'"x"']
 UNUSED_ID = "0123456789abcdef0123456789abcdef"
-NKIND = 7
+NKIND = 8
 
 
 def _classify(raw, dirname):
@@ -41,6 +41,14 @@ def _classify(raw, dirname):
         return refs.canon_id(v) != dirname
     except TypeError:
         return True
+
+
+def _same_target(raw, tgt):
+    try:
+        v = json.loads(raw.decode())
+        return isinstance(v, dict) and refs.canon_id(v) == tgt
+    except (ValueError, UnicodeDecodeError, TypeError):
+        return False
 
 
 def _build(with_cache):
@@ -74,6 +82,12 @@ def _damage(fs, i, kind, off, cls):
         fs.put(fn, EQUAL_DIFFERENT[i])
     elif kind == 6:    # rename the directory to an unused id (intact file inside)
         fs.rename_raw(f"/p/workspace/{d}", f"/p/workspace/{UNUSED_ID[:-1]}{i}")
+    elif kind == 7:    # a CHAIN of renames: this job's directory goes to an unused id (cls even: one that sorts first, odd: one that sorts last),
+        #                and the next job's directory takes this job's id - two intact files in two misnamed directories
+        other = refs.canon_id(SPS[(i + 1) % 3])
+        unused = (UNUSED_ID[:-1] + str(i)) if cls % 2 == 0 else ("f" * 31 + str(i))
+        fs.rename_raw(f"/p/workspace/{d}", f"/p/workspace/{unused}")
+        fs.rename_raw(f"/p/workspace/{other}", f"/p/workspace/{d}")
     return d
 
 
@@ -198,6 +212,27 @@ def _case(victims, kind, off, cls, with_cache, do_repair):
             for tgt, ds in targets.items():
                 if len(ds) == 1:       # two directories claiming the same id cannot both be moved there
                     recoverable.add(ds[0])
+            # chains: a misnamed directory whose correct location is occupied by ANOTHER misnamed directory that can itself be moved away
+            occupied = set(sp)
+            moved = {d for d in recoverable if d not in known or True} & {ds[0] for ds in targets.values() if len(ds) == 1}
+            for d in moved:
+                occupied.discard(d)
+            changed = True
+            while changed:
+                changed = False
+                for d in sorted(damaged - recoverable):
+                    raw = sp[d]
+                    try:
+                        v = json.loads(raw.decode()) if raw is not None else None
+                    except (ValueError, UnicodeDecodeError):
+                        continue
+                    if isinstance(v, dict) and refs.canon_id(v) != d and refs.canon_id(v) not in occupied:
+                        claim = [x for x in damaged if x != d and sp[x] is not None and _same_target(sp[x], refs.canon_id(v))]
+                        if not claim:
+                            recoverable.add(d)
+                            occupied.discard(d)
+                            occupied.add(refs.canon_id(v))
+                            changed = True
             for d in recoverable:
                 # the job (under its correct id) must validate now
                 if d in still:
@@ -240,7 +275,7 @@ def _case(victims, kind, off, cls, with_cache, do_repair):
 
 def h_damage(victims: int, kind: int, off: int, cls: int, with_cache: bool, do_repair: bool):
     assert 1 <= victims <= 7 and 0 <= kind < NKIND and 0 <= off <= 64 and 0 <= cls < 10 and part_ok(off)
-    assert (kind <= 1 or off == 0) and (kind in (1, 3, 4) or cls == 0) and (kind != 3 or cls < 2) and (kind != 4 or cls < 5)
+    assert (kind <= 1 or off == 0) and (kind in (1, 3, 4, 7) or cls == 0) and (kind != 3 or cls < 2) and (kind != 4 or cls < 5) and (kind != 7 or (cls < 2 and victims in (1, 2, 4)))
     assert tier() != "quick" or victims in (1, 2, 4, 7)
     fresh_path()
     victims, kind, off, cls, with_cache, do_repair = ci(victims, 1, 7), ci(kind, 0, NKIND - 1), ci(off, 0, 64), ci(cls, 0, 9), cb(with_cache), cb(do_repair)
@@ -270,7 +305,7 @@ EQUAL_DIFFERENT_ALT = [b" {}", b'{"a": 0.0}', b'{"a": 0, "n": {}}']
 def h_damage_falsy(victims: int, kind: int, off: int, cls: int, with_cache: bool, do_repair: bool):
     assert 1 <= victims <= 7 and 0 <= kind < NKIND and 0 <= off <= 24 and 0 <= cls < 10 and part_ok(off)
     assert (kind <= 1 or off == 0) and (kind in (1, 3, 4) or cls == 0) and (kind != 3 or cls < 2) and (kind != 4 or cls < 5)
-    assert victims in (1, 2, 4, 7) and (tier() != "quick" or kind != 1 or cls in (0, 3, 8))
+    assert victims in (1, 2, 4, 7) and (tier() != "quick" or kind != 1 or cls in (0, 3, 8)) and kind != 7
     fresh_path()
     victims, kind, off, cls, with_cache, do_repair = ci(victims, 1, 7), ci(kind, 0, NKIND - 1), ci(off, 0, 24), ci(cls, 0, 9), cb(with_cache), cb(do_repair)
     with nt():
